@@ -16,7 +16,28 @@ impl<A> OwnView for Addr<A> { open spec fn own(&self) -> Own { Own { none: false
 pub broadcast axiom fn own_of_actor<A: Actor>(a: &A) ensures #[trigger] own_of(a) == own_none();      // client contract: the actor value does not store a strong handle to itself
 pub broadcast axiom fn own_of_stream<S: VStream>(s: &S) ensures #[trigger] own_of(s) == own_none();   // client contract: the attached stream holds no strong handle to the actor
 // user callbacks may use the context (register timers and children) but cannot re-point its links
-pub open spec fn ctx_stable<A>(pre: &Context<A>, post: &Context<A>) -> bool { post.id == pre.id && post.weak_tx == pre.weak_tx && post.weak_force_tx == pre.weak_force_tx }
+// nor drop a child: the public API (add_child / register_child, proved append-only in U-CTX) is the only way client code reaches the table
+pub open spec fn ctx_stable<A>(pre: &Context<A>, post: &Context<A>) -> bool {
+    post.id == pre.id && post.weak_tx == pre.weak_tx && post.weak_force_tx == pre.weak_force_tx && kids_grow(pre.children@, post.children@)
+}
+// the child table (type id -> the children registered under it, in registration order); children are strong Senders
+impl VMap<TypeIdV, Vec<AnyBoxObj>> {
+    pub uninterp spec fn view(&self) -> Map<int, Seq<int>>;
+    #[verifier::external_body] pub fn clear(&mut self) ensures final(self)@ == Map::<int, Seq<int>>::empty() { unimplemented!() }
+    #[verifier::external_body] pub fn remove(&mut self, k: &TypeIdV) -> (r: Option<Vec<AnyBoxObj>>) ensures final(self)@ == old(self)@.remove(k.id()) { unimplemented!() }
+}
+impl TypeIdV { pub uninterp spec fn id(&self) -> int; }
+// every child that was registered is still registered, under the same type, in the same position
+pub open spec fn kids_grow(pre: Map<int, Seq<int>>, post: Map<int, Seq<int>>) -> bool {
+    forall|k: int| #![trigger pre.dom().contains(k)] #![trigger post.dom().contains(k)] pre.dom().contains(k) ==> post.dom().contains(k) && pre[k].is_prefix_of(post[k])
+}
+pub broadcast proof fn kids_grow_trans(a: Map<int, Seq<int>>, b: Map<int, Seq<int>>, c: Map<int, Seq<int>>)
+    requires #[trigger] kids_grow(a, b), #[trigger] kids_grow(b, c) ensures kids_grow(a, c)
+{
+    assert forall|k: int| a.dom().contains(k) implies c.dom().contains(k) && a[k].is_prefix_of(c[k]) by {
+        assert(b.dom().contains(k)); assert(a[k].is_prefix_of(b[k])); assert(b[k].is_prefix_of(c[k]));
+    }
+}
 
 // payload.rs: `TaskFn<A>` is a boxed `for<'a> FnOnce(&'a mut A, &'a mut Context<A>) -> TaskFuture<'a>`; the unit's type rule
 // only matches that exact shape (FnOnce: at most once; `&'a mut A` held by the returned future: handlers cannot overlap).
@@ -38,7 +59,7 @@ impl<'a> VFuture for TaskFuture<'a> {
 // calling the boxed payload creates the handler future; it borrows the actor and the context until it completes or is dropped
 #[verifier::external_body]
 pub fn call_boxed<'a, A: Actor>(f: TaskFnObj<A>, actor: &'a mut A, ctx: &'a mut Context<A>) -> (r: TaskFuture<'a>)
-    ensures r.pid() == f.pid(), r.gid() == old(actor).gid(), final(actor).gid() == old(actor).gid()
+    ensures r.pid() == f.pid(), r.gid() == old(actor).gid(), final(actor).gid() == old(actor).gid(), ctx_stable(old(ctx), final(ctx))
 { unimplemented!() }
 
 pub open spec fn deq_ev<A>(r: Option<Payload<A>>) -> Ev {
@@ -108,6 +129,7 @@ pub trait RestartStrategy<A: Actor> {
     fn refresh(actor: A, ctx: &mut Context<A>, Tracked(w): Tracked<&mut World>) -> (r: DynResult<A>)
         requires old(w).lc.ph is Running, old(w).lc.restart_pending, old(w).lc.pending is None, old(w).lc.gid == actor.gid(),   // @ob refresh.pre C07
         ensures
+            ctx_stable(old(ctx), final(ctx)),                                                                                   // @ob refresh.a-restart-releases-no-child-and-keeps-the-links C16,C15
             Self::kind() is Ignore ==> r is Ok && r->Ok_0.gid() == actor.gid() && same_world(old(w), final(w)),                 // @ob refresh.nonrestartable-ignores C07
             !(Self::kind() is Ignore) ==> (r is Ok ==> final(w).lc.ph is Running && final(w).lc.pending is None && final(w).lc.gid == r->Ok_0.gid()
                     && final(w).lc.stream == old(w).lc.stream && final(w).lc.run_slot == old(w).lc.run_slot && final(w).lc.inc == old(w).lc.inc + 1 && final(w).cfg_timeout == old(w).cfg_timeout),   // @ob refresh.new-incarnation-started C07,C03
